@@ -19,6 +19,8 @@ ints or `LinComb`s (`Val.isNum`); `Val.ival` is the Python-level integer of an e
   is needed for these value statements.)
 * `C15_oob_raises`: an out-of-range secret index raises `IndexError`; `C15_plain_index`: plain-int
   indices follow Python list semantics (negative indices count from the end).
+* `C15_empty_refused` / `C15_empty_refused2`: zero-length arrays and matrices with an empty dimension — every
+  index is outside, every element access is refused in both error modes (never a silent return).
 * `C15_oob_unsat`: in-circuit, for ANY assignment satisfying the emitted constraints the index
   evaluates to some position of the array — an out-of-range index cannot be proven — and
   `C15_read_sound`: the result then evaluates to the element at that position.
@@ -48,6 +50,16 @@ theorem C15_oob_raises {arr : List Val} {it : LinComb} {v : Val} {s : St} (hi : 
     (h : it.value < 0 ∨ it.value ≥ arr.length) :
     arrayGet arr (.lc it) s = .error .index ∧ arraySet arr (.lc it) v s = .error .index :=
   ⟨arrayGet_oob hi h, arraySet_oob hi h⟩
+
+/-- **zero-length arrays: every secret index is outside, every access is refused** — `IndexError` with the error checks
+on; with them off `AttributeError` (`sum([])` is the int `0`, which has no `assert_eq`).  In neither mode is a value
+returned or the state changed: there is no silent read or write.  (`C15_oob_raises` covers length 0 in the first mode;
+`C15_oob_unsat` is true for `n = 0` because `arrayIxs it 0` never returns: this theorem says so outright.) -/
+theorem C15_empty_refused {it : LinComb} {v : Val} {s : St} :
+    arrayIxs it 0 s = .error (if s.ignoreErrors then .attribute else .index) ∧
+    arrayGet [] (.lc it) s = .error (if s.ignoreErrors then .attribute else .index) ∧
+    arraySet [] (.lc it) v s = .error (if s.ignoreErrors then .attribute else .index) :=
+  ⟨arrayIxs_empty, arrayGet_empty, arraySet_empty⟩
 
 /-- plain-int indices: Python list semantics (`0 ≤ i < n` ↦ `i`, `-n ≤ i < 0` ↦ `n + i`, otherwise
 `IndexError`); the state is not touched -/
@@ -131,6 +143,13 @@ example : (match (do let (arr, _) ← exArr; let j ← privVal 3; arrayGet arr (
     | _ => false) = true := by decide +kernel
 
 
+/-- a zero-length array, index `PrivVal(0)`: refused with the error checks on (`IndexError`) and off (`AttributeError`),
+reads and writes; nothing is recorded -/
+example : (match (do let j ← privVal 0; arrayGet [] (.lc j)) (St.init 97 8 8),
+      (do let j ← privVal 0; arrayGet [] (.lc j)) { St.init 97 8 8 with ignoreErrors := true },
+      (do let j ← privVal 0; arraySet [] (.lc j) (.int 7)) { St.init 97 8 8 with ignoreErrors := true } with
+    | .error .index, .error .attribute, .error .attribute => true | _, _, _ => false) = true := by decide +kernel
+
 /-- **API surface pinned** (regenerated from the source on every run, `Gen/Api.lean`): the methods the model of this
 property transcribes are exactly the methods the code has.  A method added to the code (say an in-place `__iadd__`, which
 Python would prefer over the `__add__` the model knows) or removed from it changes the generated list and this obligation
@@ -152,7 +171,8 @@ length `w`) with plain-int or `LinComb` elements (`A2.NumRow`).
 * `C15_history2`: every history of events (index objects created once and reused, row handles, copies, element reads
   and writes through the matrix / a handle / a plain-index inner row, row stores, gathers, reads inside a taken or
   not-taken branch) that the model completes is completed by the nested-list semantics with the same matrix and the
-  same values read; `C15_history2_every_step`: after every event; `C15_history2_lists`: for histories of element
+  same values read (rows built outside the matrix have its width: `Ev.okWidth`; rows of another length stored at a secret
+  index, and secret-index accesses to a ragged matrix, are REFUSED: `C15_other_length_refused`); `C15_history2_every_step`: after every event; `C15_history2_lists`: for histories of element
   accesses the reference is a function on `List (List Int)` alone; `C15_history2_inv`: along every history all emitted
   constraints hold on the recorded witness and all stored values are coherent with their wire expressions.
 * `C15_oob2_raises`, `C15_oob2_unsat`, `C15_oblivious2`: the two-dimensional forms of the out-of-range and
@@ -289,6 +309,19 @@ theorem C15_oob2_raises {rows : List (List Val)} {i j v : Val} {it jt : LinComb}
       matGet rows i (.lc jt) s = .error .index ∧ matSet rows i (.lc jt) v s = .error .index) :=
   ⟨fun hi h => mat_oob_row hi h, fun h1 hi h => mat_oob_col h1 hi h⟩
 
+open A2 in
+/-- **matrices with an empty dimension**: a secret row component on a matrix without rows is refused (`IndexError` /
+`AttributeError` by error mode); on a matrix whose rows are all empty, `a[i, j]` and `a[i, j] = v` with a secret column
+component never complete — whatever the first component (plain or secret), with the error checks on or off.  (A row
+read `a[i]` of an `n × 0` matrix at an in-range secret index is legitimate and returns the empty row:
+`C15_row_read` with `w = 0`.) -/
+theorem C15_empty_refused2 {rows : List (List Val)} {i j v : Val} {it jt : LinComb} {s : St} :
+    (matGet [] (.lc it) j s = .error (if s.ignoreErrors then .attribute else .index) ∧
+     matSet [] (.lc it) j v s = .error (if s.ignoreErrors then .attribute else .index)) ∧
+    ((∀ row ∈ rows, row = []) →
+      (∀ x, matGet rows i (.lc jt) s ≠ .ok x) ∧ (∀ x, matSet rows i (.lc jt) v s ≠ .ok x)) :=
+  ⟨mat_empty_row, fun hr => mat_empty_col hr⟩
+
 section sound2
 variable {p : ℕ} [Fact p.Prime] {wf : Wire → Int}
 
@@ -399,6 +432,25 @@ example : (match (do let m ← exMat2; let i ← privVal 0; let j ← privVal 3;
     | _ => false) = true := by first | decide +kernel | fail "C15_oob2_unsat example"
 
 open A2 in
+/-- with error checks off the out-of-range WRITE `a[PrivVal(0), PrivVal(3)] = 9` (tuple index, LAST component outside)
+completes and leaves the matrix as it was, but the recorded witness violates the emitted constraints: the selectors of
+the last component sum to 0 and `sum(ixs).assert_eq(1)` is emitted for the inner write as for every other level -/
+example : (match (do let m ← exMat2; let i ← privVal 0; let j ← privVal 3; matSet m (.lc i) (.lc j) (.int 9))
+      { St.init 97 8 8 with ignoreErrors := true } with
+    | .ok (res, s1) => imat res == [[1, 2, 3], [4, 5, 6]] && !satAll2 s1
+    | _ => false) = true := by first | decide +kernel | fail "C15_oob2_unsat write example"
+
+open A2 in
+/-- a `3 × 0` matrix: the row read at the secret index 1 is the empty row; `a[PrivVal(1), PrivVal(0)]` and
+`a[1, PrivVal(0)] = 7` are refused with the error checks off (`AttributeError`) as with them on (`IndexError`) -/
+example : (match (do let i ← privVal 1; rowRead [[], [], []] i) (St.init 97 8 8),
+      (do let i ← privVal 1; let j ← privVal 0; matGet [[], [], []] (.lc i) (.lc j)) { St.init 97 8 8 with ignoreErrors := true },
+      (do let j ← privVal 0; matSet [[], [], []] (.int 1) (.lc j) (.int 7)) { St.init 97 8 8 with ignoreErrors := true },
+      (do let i ← privVal 1; let j ← privVal 0; matGet [[], [], []] (.lc i) (.lc j)) (St.init 97 8 8) with
+    | .ok (r, _), .error .attribute, .error .attribute, .error .index => r.isEmpty
+    | _, _, _, _ => false) = true := by first | decide +kernel | fail "C15_empty_refused2 example"
+
+open A2 in
 /-- two different index pairs: the same constraints, literally -/
 example : (match (do let m ← exMat2; let i ← privVal 0; let j ← privVal 2; matSet m (.lc i) (.lc j) (.int 9)) (St.init 97 8 8),
       (do let m ← exMat2; let i ← privVal 1; let j ← privVal 0; matSet m (.lc i) (.lc j) (.int 9)) (St.init 97 8 8) with
@@ -417,15 +469,37 @@ example : (match (do let a ← init true [[1, 2, 3], [4, 5, 6]]
     | _, _ => false) = true := by first | decide +kernel | fail "C15_oblivious2_history example"
 
 open A2 in
-/-- **boundary of `C15_history2` (the hypothesis `Ev.okWidth` is needed): a row of another length stored at a secret
-index** — `m = [[1,2,3],[4,5,6]]; m[PrivVal(1)] = Array([7])`.  On lists of lists the result is `[[1,2,3],[7]]`; the
-model, like the code (`Array.__sub__/__add__` zip their operands), ends with `[[1],[7]]`: EVERY row is cut to the
-length of the stored row, no exception, and all emitted constraints hold on the recorded witness.  Reproduced on the
-code by `harness/props/c15.py` with `VERIF_C15_OTHER_LENGTH_ROWS=1` (finding `C15-row-store-other-length`). -/
-theorem C15_cex_row_store_other_length :
-    (match (do let a ← init true [[1, 2, 3], [4, 5, 6]]; A2.run [.newrow 1 [7], .setrow (.s 1) 1] a) (St.init 97 8 8),
-        srun [.newrow 1 [7], .setrow (.s 1) 1] (sinit [[1, 2, 3], [4, 5, 6]]) with
-      | .ok (a', s1), .ok r => a'.matrix == [[1], [7]] && r.matrix == [[1, 2, 3], [7]] && satAll2 s1
-      | _, _ => false) = true := by first | decide +kernel | fail "C15_cex_row_store_other_length"
+/-- **rows of different lengths are refused, never truncated** (finding `C15-row-store-other-length`, repaired in the
+source: `Array.__add__` / `Array.__sub__` raise `ValueError` for operands of different lengths instead of zipping them to
+the shorter one).  (i) the two operators; (ii) a row read at a secret index that completes has seen a RECTANGULAR
+matrix — every row has the length of the row returned — so a ragged matrix is refused; (iii) a store `a[i] = value` at a
+secret index of a value whose length is not the width of the matrix never completes; (iv) a tuple write `a[i, j] = v`
+with a secret row component that completes has seen a rectangular matrix -/
+theorem C15_other_length_refused {rows res : List (List Val)} {a b vals r : List Val} {it : LinComb} {j v : Val}
+    {s s' : St} {w : Nat} :
+    (a.length ≠ b.length → addRows a b s = .error .value ∧ subRows a b s = .error .value) ∧
+    (s.guard = none → rowRead rows it s = .ok (r, s') → ∀ row ∈ rows, row.length = r.length) ∧
+    (s.guard = none → rows ≠ [] → (∀ row ∈ rows, row.length = w) → vals.length ≠ w →
+      ∀ x, rowsWrite (rows.map fun r => (false, r)) it vals s ≠ .ok x) ∧
+    (s.guard = none → matSet rows (.lc it) j v s = .ok (res, s') → ∃ w', ∀ row ∈ rows, row.length = w') := by
+  refine ⟨fun h => ⟨addRows_mismatch h, subRows_mismatch h⟩, fun hg h => rowRead_rect hg h,
+    fun hg hne hw hv => rowsWrite_mismatch hg hne hw hv, fun hg h => ?_⟩
+  unfold matSet at h
+  simp only at h
+  obtain ⟨r0, s1, h1, -⟩ := bind_ok.mp h
+  exact ⟨r0.length, rowRead_rect hg h1⟩
+
+open A2 in
+/-- the input of the former finding: `m = [[1,2,3],[4,5,6]]; m[PrivVal(1)] = Array([7])` is refused (`ValueError`) — on
+lists of lists the result would be `[[1,2,3],[7]]`, which the plain-index store `m[1] = Array([7])` does produce; a
+row read at a secret index of the matrix made ragged that way, and a tuple write with a secret row component, are
+refused as well -/
+example : (match (do let a ← init true [[1, 2, 3], [4, 5, 6]]; A2.run [.newrow 1 [7], .setrow (.s 1) 1] a) (St.init 97 8 8),
+      srun [.newrow 1 [7], .setrow (.s 1) 1] (sinit [[1, 2, 3], [4, 5, 6]]),
+      (do let a ← init true [[1, 2, 3], [4, 5, 6]]; A2.run [.newrow 1 [7], .setrow (.p 1) 1] a) (St.init 97 8 8),
+      (do let a ← init true [[1, 2, 3], [4, 5, 6]]; A2.run [.newrow 1 [7], .setrow (.p 1) 1, .row 2 (.s 0)] a) (St.init 97 8 8),
+      (do let a ← init true [[1, 2, 3], [4, 5, 6]]; A2.run [.newrow 1 [7], .setrow (.p 1) 1, .set2 (.s 0) (.s 0) 9] a) (St.init 97 8 8) with
+    | .error .value, .ok r, .ok (a', _), .error .value, .error .value => r.matrix == [[1, 2, 3], [7]] && a'.matrix == [[1, 2, 3], [7]]
+    | _, _, _, _, _ => false) = true := by first | decide +kernel | fail "C15_other_length_refused example"
 
 end Pysnark
